@@ -82,6 +82,15 @@ def gen_case(rng):
     elif r < 0.6:
         a = rng.choice(comps)
         E.add((rng.choice(sorted(denote(nodes, a))), rng.choice([n for n in nodes if "bystander" in n or "other" in n or n == "r"] or nodes)))
+    elif r < 0.78 and rel:
+        # one component violating two pairwise rules at once: a drawn arrow it does not fulfil AND an import of a component it has
+        # no arrow to (both messages have to be in the aggregated error, in either mode)
+        a, b = rng.choice(sorted(rel))
+        E = {(x, y) for (x, y) in E if not ((x == a or x.startswith(a + ".")) and (y == b or y.startswith(b + ".")))}
+        others = [c for c in comps if c != a and (a, c) not in rel]
+        if others:
+            c2 = rng.choice(others)
+            E.add((rng.choice(sorted(denote(nodes, a))), rng.choice(sorted(denote(nodes, c2)))))
     E = {(a, b) for a, b in E if a != b}
     return dict(base=base, comps=comps, short=comps_short, nodes=nodes, edges=sorted(E), rel=sorted(rel))
 
